@@ -594,6 +594,74 @@ Fixpoint get_cookie_seq (hdr : str) (reads : list (str * option str))
   | (n, s) :: r => get_cookie hdr n s :: get_cookie_seq hdr r
   end.
 
+(* ---- every way a request exposes its cookies, and updates of the Cookie header ----
+   helpers.py:144 CookieDict: item access returns the parsed value as it is;
+   getunicode / attribute access / decode() re-read it as Latin-1 bytes in
+   input_encoding (utf8 by default); errors there (UnicodeError) give the default.
+   props_mixin.py:47 headers: WSGIHeaderDict over the environ.
+   request.py:__setitem__ clears the cached cookies when HTTP_COOKIE changes, and
+   __init__ on a new environ starts afresh: the request is a function of the header
+   currently in force ([None] = the environ has no HTTP_COOKIE). *)
+Definition fix_enc (utf8 : bool) (s : str) : option str :=
+  match latin1_enc s with
+  | Some b => if utf8 then utf8_dec b else Some (latin1_dec b)
+  | None => None                                      (* UnicodeEncodeError *)
+  end.
+
+Fixpoint fix_all (utf8 : bool) (d acc : list (str * str)) : option (list (str * str)) :=
+  match d with
+  | [] => Some acc
+  | (k, v) :: r =>
+    match fix_enc utf8 k, fix_enc utf8 v with
+    | Some k', Some v' => fix_all utf8 r (assoc_set k' v' acc)      (* copy[fix(key)] = fix(value) *)
+    | _, _ => None                                                  (* UnicodeError propagates *)
+    end
+  end.
+
+Inductive qop :=
+| QGet (name : str) (secret : option str)     (* request.get_cookie(name, secret=...) *)
+| QItem (name : str)                          (* request.cookies.get(name) *)
+| QAttr (name : str) (utf8 : bool)            (* request.cookies.getunicode(name[, 'latin1']) / attribute access *)
+| QDecode (utf8 : bool)                       (* request.cookies.decode([...]) *)
+| QHeader                                     (* request.headers['Cookie'] *)
+| QSetHeader (h : option str).                (* request['HTTP_COOKIE'] = h / del / __init__(new environ) *)
+
+Inductive qres :=
+| QRGet (g : gres) (loaded : option (list N))
+| QRStr (s : option str)                      (* None = the default / KeyError *)
+| QRDict (d : option (list (str * str)))      (* None = UnicodeError *)
+| QRCookieError
+| QRNoFuel.
+
+Definition cookie_header (h : option str) : str := match h with Some s => s | None => [] end.
+
+Definition qread (h : option str) (o : qop) : qres :=
+  match o with
+  | QGet n s => let (g, l) := get_cookie (cookie_header h) n s in QRGet g l
+  | QHeader => QRStr h
+  | QSetHeader _ => QRStr None
+  | _ =>
+    match parse_cookies (cookie_header h) with
+    | PCookieError => QRCookieError
+    | PNoFuel => QRNoFuel
+    | PCookies d =>
+      match o with
+      | QItem n => QRStr (assoc_get n d)
+      | QAttr n u => QRStr (match assoc_get n d with Some v => fix_enc u v | None => None end)
+      | QDecode u => QRDict (fix_all u d [])
+      | _ => QRStr None
+      end
+    end
+  end.
+
+(* the results of the reads, in order; an update only changes the header in force *)
+Fixpoint request_run (h : option str) (ops : list qop) : list qres :=
+  match ops with
+  | [] => []
+  | QSetHeader h' :: r => request_run h' r
+  | o :: r => qread h o :: request_run h r
+  end.
+
 End Signed.
 
 Arguments CStr {val}. Arguments CObj {val}.
@@ -602,6 +670,7 @@ Arguments DNone {val}. Arguments DLoaded {val}. Arguments DB64Error {val}. Argum
 Arguments GDefault {val}. Arguments GStr {val}. Arguments GVal {val}.
 Arguments GCookieError {val}. Arguments GRaise {val}. Arguments GNoFuel {val}.
 Arguments RSet {val}. Arguments RDel {val}. Arguments RCopy {val}.
+Arguments QRGet {val}. Arguments QRStr {val}. Arguments QRDict {val}. Arguments QRCookieError {val}. Arguments QRNoFuel {val}.
 
 (* ------------------------------------------------------------------ *)
 (* correspondence interface                                            *)
@@ -739,6 +808,27 @@ Definition dec_read (l : list Z) : option ((str * option str) * list Z) :=
   | None => None
   end.
 
+(* typed request operations: 0 get | 1 item | 2 attr | 3 decode | 4 header | 5 set header *)
+Definition dec_qop (l : list Z) : option (qop * list Z) :=
+  match l with
+  | 0%Z :: r => match dec_read r with Some ((n, s), r') => Some (QGet n s, r') | None => None end
+  | 1%Z :: r => match dec_str r with Some (n, r') => Some (QItem n, r') | None => None end
+  | 2%Z :: u :: r => match dec_str r with Some (n, r') => Some (QAttr n (negb (Z.eqb u 0)), r') | None => None end
+  | 3%Z :: u :: r => Some (QDecode (negb (Z.eqb u 0)), r)
+  | 4%Z :: r => Some (QHeader, r)
+  | 5%Z :: r => match dec_opt_str r with Some (h, r') => Some (QSetHeader h, r') | None => None end
+  | _ => None
+  end.
+
+Definition enc_qres (q : @qres pk) : list Z :=
+  match q with
+  | QRGet g l => 0%Z :: enc_gres g ++ enc_option enc_str l
+  | QRStr s => 1%Z :: enc_option enc_str s
+  | QRDict d => 2%Z :: enc_option (enc_list (fun '(k, v) => enc_str k ++ enc_str v)) d
+  | QRCookieError => [3%Z]
+  | QRNoFuel => [9%Z]
+  end.
+
 Definition scenario (l : list Z) : list Z :=
   match dec_list dec_cspec l with
   | Some (cs, kind :: a :: b :: r1) =>
@@ -748,7 +838,7 @@ Definition scenario (l : list Z) : list Z :=
       | Some (rname, r3) =>
         match dec_opt_str r3 with
         | Some (rsec, r4) =>
-          let reads := match dec_list dec_read r4 with Some (x, _) => x | None => [] end in
+          let qops := match dec_list dec_qop r4 with Some (x, _) => x | None => [] end in
           match set_all [] cs 0%Z with
           | inr (i, e) => [1%Z; i; e]
           | inl j =>
@@ -759,8 +849,7 @@ Definition scenario (l : list Z) : list Z :=
               let '(g, lc) := get_cookie pk hmac_md5 (cloads (loads_table cs)) hdr rname rsec in
               0%Z :: enc_list enc_str wires ++ enc_str hdr ++ enc_pres (parse_cookies hdr)
                   ++ enc_gres g ++ enc_option enc_str lc
-                  ++ enc_list (fun x => enc_gres (fst x) ++ enc_option enc_str (snd x))
-                              (read_seq hdr (loads_table cs) reads)
+                  ++ enc_list enc_qres (request_run pk hmac_md5 (cloads (loads_table cs)) (Some hdr) qops)
             end
           end
         | None => bad_input
